@@ -27,6 +27,9 @@ def _snap(modules, names=("pid", "X", "Y", "alive")):
     for n in ("temp",):
         if n in st.variables:
             out[n] = np.array(st[n]).copy()
+    t = modules.get("time")
+    if t is not None:
+        out["_time"] = str(t.time)  # what a user module reading the model clock sees inside this call
     return out
 
 
